@@ -22,6 +22,8 @@ Directive grammar (one per line, leading blanks allowed):
   //@afterloop N         ghost text inserted right after the closing brace of the N-th loop
   //@tail NAME           the tail expression E becomes `let NAME = E; <ghost text> NAME` (R16)
   //@replace "old" => "new" :: reason      function-specific rewrite (logged as F)
+  //@replaceall "old" => "new" :: reason   the same for every occurrence
+  //@replacespan "from" .. "to" => "new" :: reason   a whole block between two anchors (logged as F)
   //@end
 
 Everything else in the template is proof-only or assumed text (prelude,
@@ -390,7 +392,7 @@ class Unit:
 
     # ------------------------------------------------------------------
     def _parse_fn_block(self, block):
-        spec = dict(requires=[], ensures=[], decreases=[], loops={}, closures={}, hints=[], replaces=[], chains=[], names=[], tail=None)
+        spec = dict(requires=[], ensures=[], decreases=[], loops={}, closures={}, hints=[], replaces=[], chains=[], names=[], tail=None, spans=[])
         cur = None
         for ln in block:
             s = ln.strip()
@@ -443,6 +445,15 @@ class Unit:
                 elif kw == 'chain':
                     mm = re.match(r'"((?:[^"\\]|\\.)*)"\s*(\w+)?\s*(mut)?', rest)
                     spec['chains'].append((mm.group(1).replace('\\"', '"'), mm.group(2) or 'c', bool(mm.group(3))))
+                    cur = None
+                elif kw == 'replacespan':
+                    # //@replacespan "from" .. "to" => "new" :: reason   -- everything from the (unique) first anchor through the
+                    # first occurrence of the second anchor after it is replaced (for blocks outside the projected state)
+                    mm = re.match(r'"((?:[^"\\]|\\.)*)"\s*\.\.\s*"((?:[^"\\]|\\.)*)"\s*=>\s*"((?:[^"\\]|\\.)*)"\s*::\s*(.*)$', rest)
+                    if not mm:
+                        raise TemplateError('bad replacespan: %s' % rest)
+                    un = lambda t: t.replace('\\"', '"').replace('<NL>', '\n')
+                    spec['spans'].append((un(mm.group(1)), un(mm.group(2)), un(mm.group(3)), mm.group(4)))
                     cur = None
                 elif kw in ('replace', 'replaceall'):
                     mm = re.match(r'"((?:[^"\\]|\\.)*)"\s*=>\s*"((?:[^"\\]|\\.)*)"\s*::\s*(.*)$', rest)
@@ -505,6 +516,17 @@ class Unit:
                 return t
             spec['replaces'] = [(rn0(o), rn0(n), w) for o, n, w in spec['replaces']]
         # --- function-specific textual replacements (logged) ---
+        for a0, a1, new, why in spec.get('spans', []):
+            occ = [m_.start() for m_ in re.finditer(re.escape(a0), text)]
+            if len(occ) != 1:
+                self.lost_anchors.append('%s: replacespan anchor %r occurs %d times' % (path, a0, len(occ)))
+                continue
+            e0 = text.find(a1, occ[0] + len(a0))
+            if e0 < 0:
+                self.lost_anchors.append('%s: replacespan end anchor %r not found' % (path, a1))
+                continue
+            log.append(dict(rule='F', before=norm_ws(text[occ[0]:e0 + len(a1)])[:400], after=new, reason=why))
+            text = text[:occ[0]] + new + text[e0 + len(a1):]
         for old, new, why in spec['replaces']:
             # layout-insensitive: a line break plus indentation in the anchor matches any (or no) white space, other
             # white space matches any white-space run
